@@ -62,8 +62,7 @@ def run_prog(exe, path, specs, calls, opt=2, timeout=300):
     return [canon(j) for j in joined[:len(lines)]]
 
 
-C01_SITES = {'target_translate', 'out_insn', 'get_label_disp', 'get_bb_version', 'jump_opt', 'DLIST_bb_version_t_append',
-             'VARR_target_bb_version_tpush'}
+C01_SITES = {'get_label_disp', 'get_bb_version', 'jump_opt', 'DLIST_bb_version_t_append', 'VARR_target_bb_version_tpush'}
 GEN_FAILED = 'CRASH:gen:'   # the generator itself died while generating (see harness/c03_prog.h): C01's subject
 
 
@@ -159,13 +158,13 @@ def shrink_prog(exe, text, specs2, calls, opt, site=None):
 # ---------------------------------------------------------------- run
 
 def one_program(chk, exe, rng, k, quick):
-    # Optimisation level: every program runs at one of -O0..-O3 (census on HEAD 78890ed8, after C01-16: 60 seeds x
-    # 10 programs x {-O2,-O3} x 8-9 interface runs: no value disagreement, no run-time crash).  What remains at
-    # -O2/-O3 on programs WITH label addresses are generator deaths owned by C01 (5-6% of programs): known:
-    # jmpi-edge-split ("matching insn jmpi": target_translate, out_insn under lazy-bb) and the use-after-free of a
-    # label deleted by remove_unreachable_bbs (get_label_disp / get_bb_version / jump_opt).  For such programs a death
-    # at exactly those sites is counted in the evidence (c01_owned_generator_death) and not reported here; any other
-    # death, and every death on a program without label addresses or at -O0/-O1, is a finding of its own.
+    # Optimisation level: every program runs at one of -O0..-O3 (census on HEAD f9a528c1, after C01-16..19: 48 seeds
+    # x 10 programs x {-O2,-O3} x 8-9 interface runs: no value disagreement, no run-time crash).  What remains at
+    # -O2/-O3 on programs WITH label addresses is one generator death owned by C01 (0.8% of programs): the
+    # use-after-free of a label deleted by remove_unreachable_bbs (SIGSEGV in get_label_disp; under lazy-bb
+    # get_bb_version), witnesses in corpus/c03_open_O2.jsonl.  For such programs a death at exactly those sites is
+    # counted in the evidence (c01_owned_generator_death) and not reported here; any other death, and every death on
+    # a program without label addresses or at -O0/-O1, is a finding of its own.
     opt = rng.choice([0, 1, 1, 2, 3])
     prog = G.gen_program(rng, feats=FEATS)
     path = write_prog(prog['text'], 'p')
